@@ -23,8 +23,10 @@ package engine
 import (
 	"go/ast"
 	"go/token"
-	"path/filepath"
+	"path"
 	"reflect"
+	"strings"
+	"unicode"
 
 	"github.com/uber-go/gopatch/internal/data"
 	"github.com/uber-go/gopatch/internal/goast"
@@ -256,9 +258,7 @@ func (r ImportReplacer) Replace(d data.Data, cl Changelog, f *ast.File) (string,
 		}
 
 	} else {
-		// TODO: more sophisticated package name guessing logic here
-		// and below.
-		pkgName = filepath.Base(r.Path)
+		pkgName = guessPackageName(r.Path)
 	}
 
 	if !astutil.AddNamedImport(r.Fset, f, name, r.Path) {
@@ -342,7 +342,7 @@ func (r ImportsReplacer) Cleanup(d data.Data, f *ast.File, newNames []string) er
 		}
 
 		if len(pkgName) == 0 {
-			pkgName = filepath.Base(imp)
+			pkgName = guessPackageName(imp)
 		}
 
 		// If this import was replaced by an added import, kill it.
@@ -374,6 +374,41 @@ func (r ImportsReplacer) Cleanup(d data.Data, f *ast.File, newNames []string) er
 	}
 
 	return nil
+}
+
+// guessPackageName guesses the name of the package with the given import
+// path without looking at its source: the last path element, or the one
+// before it if the last is a major version ("example.com/foo/v2" is package
+// foo), cut off at the first character that cannot be part of an identifier
+// ("gopkg.in/yaml.v2" is package yaml). This is the assumption goimports makes
+// too.
+func guessPackageName(importPath string) string {
+	base := path.Base(importPath)
+	if isMajorVersion(base) {
+		if dir := path.Dir(importPath); dir != "." && dir != "/" {
+			base = path.Base(dir)
+		}
+	}
+	base = strings.TrimPrefix(base, "go-")
+	if i := strings.IndexFunc(base, func(r rune) bool {
+		return r != '_' && !unicode.IsLetter(r) && !unicode.IsDigit(r)
+	}); i > 0 {
+		base = base[:i]
+	}
+	return base
+}
+
+// isMajorVersion reports whether s is a major version path element: v2, v3, ...
+func isMajorVersion(s string) bool {
+	if len(s) < 2 || s[0] != 'v' {
+		return false
+	}
+	for _, r := range s[1:] {
+		if r < '0' || r > '9' {
+			return false
+		}
+	}
+	return true
 }
 
 // TODO: This is probably not the best place or method to implement this.
